@@ -6,7 +6,7 @@ macro_rules! debug_assert_triangle_nodes {
     }};
 }
 #[derive(Debug, Clone, Copy)]
-enum NodeError {
+pub enum NodeError {
     AppendSelf,
     PrependSelf,
     InsertBeforeSelf,
@@ -18,34 +18,61 @@ enum NodeError {
     InsertAfterAncestor,
 }
 #[derive(Debug, Clone, Copy)]
-enum ConsistencyError {
+pub enum ConsistencyError {
     ParentChildLoop,
     SiblingsLoop,
 }
 #[derive(PartialEq, Eq, Copy, Clone, Debug)]
-struct NodeId {
-    index1: NonZeroUsize,
-    stamp: NodeStamp,
+pub struct NodeId {
+    pub index1: NonZeroUsize,
+    pub stamp: NodeStamp,
 }
-#[derive(PartialEq, Eq, Copy, Clone, Debug, Default)]
-struct NodeStamp(i16);
+#[derive(PartialEq, Eq, Copy, Clone, Debug, Default, Structural)]
+pub struct NodeStamp(pub i16);
 impl NodeStamp {
-    #[verifier::external_body]
-    fn is_removed(self) -> bool {
+    pub fn is_removed(self) -> (r: bool)
+        // @props C06 C12
+        ensures
+            r == self.removed(),
+    {
         self.0.is_negative()
     }
-    #[verifier::external_body]
-    fn as_removed(&mut self) {
+    pub fn as_removed(&mut self)
+        // @props C06 C07
+        requires
+            !old(self).removed(),
+        ensures
+            // @ob C06.as_removed_is_removed C06 C12
+            final(self).removed(),
+            // @ob C06.as_removed_keeps_high_water C06
+            final(self).hw() == old(self).hw(),
+            final(self).0 == -old(self).0 - 1,
+    {
         debug_assert!(!self.is_removed());
         self.0 = -self.0 - 1;
     }
-    #[verifier::external_body]
-    fn reuseable(self) -> bool {
+    pub fn reuseable(self) -> (r: bool)
+        // @props C06 C07
+        requires
+            self.removed(),
+        ensures
+            r == self.can_reuse(),
+    {
         debug_assert!(self.is_removed());
         self.0 > i16::MIN
     }
-    #[verifier::external_body]
-    fn reuse(&mut self) -> Self {
+    pub fn reuse(&mut self) -> (r: Self)
+        // @props C06 C07
+        requires
+            old(self).can_reuse(),
+        ensures
+            // @ob C06.reuse_is_live C06
+            !final(self).removed(),
+            // @ob C06.reuse_exceeds_high_water C06
+            final(self).hw() == old(self).hw() + 1,
+            final(self).0 == -old(self).0,
+            r == *final(self),
+    {
         debug_assert!(self.reuseable());
         self.0 = -self.0;
         *self
@@ -65,55 +92,55 @@ impl From<NodeId> for usize {
 }
 impl NodeId {
     #[verifier::external_body]
-    fn index0(self) -> usize {
+    pub fn index0(self) -> usize {
         self.index1.get() - 1
     }
     #[verifier::external_body]
-    fn from_non_zero_usize(index1: NonZeroUsize, stamp: NodeStamp) -> Self {
+    pub fn from_non_zero_usize(index1: NonZeroUsize, stamp: NodeStamp) -> Self {
         NodeId { index1, stamp }
     }
     #[verifier::external_body]
-    fn is_removed<T>(self, arena: &Arena<T>) -> bool {
+    pub fn is_removed<T>(self, arena: &Arena<T>) -> bool {
         arena[self].stamp != self.stamp
     }
     #[verifier::external_body]
-    fn ancestors<T>(self, arena: &Arena<T>) -> Ancestors<'_, T> {
+    pub fn ancestors<T>(self, arena: &Arena<T>) -> Ancestors<'_, T> {
         Ancestors::new(arena, self)
     }
     #[verifier::external_body]
-    fn predecessors<T>(self, arena: &Arena<T>) -> Predecessors<'_, T> {
+    pub fn predecessors<T>(self, arena: &Arena<T>) -> Predecessors<'_, T> {
         Predecessors::new(arena, self)
     }
     #[verifier::external_body]
-    fn preceding_siblings<T>(self, arena: &Arena<T>) -> PrecedingSiblings<'_, T> {
+    pub fn preceding_siblings<T>(self, arena: &Arena<T>) -> PrecedingSiblings<'_, T> {
         PrecedingSiblings::new(arena, self)
     }
     #[verifier::external_body]
-    fn following_siblings<T>(self, arena: &Arena<T>) -> FollowingSiblings<'_, T> {
+    pub fn following_siblings<T>(self, arena: &Arena<T>) -> FollowingSiblings<'_, T> {
         FollowingSiblings::new(arena, self)
     }
     #[verifier::external_body]
-    fn children<T>(self, arena: &Arena<T>) -> Children<'_, T> {
+    pub fn children<T>(self, arena: &Arena<T>) -> Children<'_, T> {
         Children::new(arena, self)
     }
     #[verifier::external_body]
-    fn reverse_children<T>(self, arena: &Arena<T>) -> ReverseChildren<'_, T> {
+    pub fn reverse_children<T>(self, arena: &Arena<T>) -> ReverseChildren<'_, T> {
         ReverseChildren::new(arena, self)
     }
     #[verifier::external_body]
-    fn descendants<T>(self, arena: &Arena<T>) -> Descendants<'_, T> {
+    pub fn descendants<T>(self, arena: &Arena<T>) -> Descendants<'_, T> {
         Descendants::new(arena, self)
     }
     #[verifier::external_body]
-    fn traverse<T>(self, arena: &Arena<T>) -> Traverse<'_, T> {
+    pub fn traverse<T>(self, arena: &Arena<T>) -> Traverse<'_, T> {
         Traverse::new(arena, self)
     }
     #[verifier::external_body]
-    fn reverse_traverse<T>(self, arena: &Arena<T>) -> ReverseTraverse<'_, T> {
+    pub fn reverse_traverse<T>(self, arena: &Arena<T>) -> ReverseTraverse<'_, T> {
         ReverseTraverse::new(arena, self)
     }
     #[verifier::external_body]
-    fn detach<T>(self, arena: &mut Arena<T>) {
+    pub fn detach<T>(self, arena: &mut Arena<T>) {
         let range = SiblingsRange::new(self, self).detach_from_siblings(arena);
         range
             .rewrite_parents(arena, None)
@@ -124,12 +151,16 @@ impl NodeId {
         );
     }
     #[verifier::external_body]
-    fn append<T>(self, new_child: NodeId, arena: &mut Arena<T>) {
+    pub fn append<T>(self, new_child: NodeId, arena: &mut Arena<T>) {
         self.checked_append(new_child, arena)
             .expect("Preconditions not met: invalid argument");
     }
     #[verifier::external_body]
-    fn checked_append<T>(self, new_child: NodeId, arena: &mut Arena<T>) -> Result<(), NodeError> {
+    pub fn checked_append<T>(
+        self,
+        new_child: NodeId,
+        arena: &mut Arena<T>,
+    ) -> Result<(), NodeError> {
         if new_child == self {
             return Err(NodeError::AppendSelf);
         }
@@ -155,7 +186,7 @@ impl NodeId {
         Ok(())
     }
     #[verifier::external_body]
-    fn append_value<T>(self, value: T, arena: &mut Arena<T>) -> NodeId {
+    pub fn append_value<T>(self, value: T, arena: &mut Arena<T>) -> NodeId {
         assert!(
             !arena[self].is_removed(),
             "Preconditions not met: removed node cannot have children"
@@ -165,16 +196,20 @@ impl NodeId {
         new_child
     }
     #[verifier::external_body]
-    fn append_new_node_unchecked<T>(self, new_child: NodeId, arena: &mut Arena<T>) {
+    pub fn append_new_node_unchecked<T>(self, new_child: NodeId, arena: &mut Arena<T>) {
         insert_last_unchecked(arena, new_child, self);
     }
     #[verifier::external_body]
-    fn prepend<T>(self, new_child: NodeId, arena: &mut Arena<T>) {
+    pub fn prepend<T>(self, new_child: NodeId, arena: &mut Arena<T>) {
         self.checked_prepend(new_child, arena)
             .expect("Preconditions not met: invalid argument");
     }
     #[verifier::external_body]
-    fn checked_prepend<T>(self, new_child: NodeId, arena: &mut Arena<T>) -> Result<(), NodeError> {
+    pub fn checked_prepend<T>(
+        self,
+        new_child: NodeId,
+        arena: &mut Arena<T>,
+    ) -> Result<(), NodeError> {
         if new_child == self {
             return Err(NodeError::PrependSelf);
         }
@@ -200,12 +235,12 @@ impl NodeId {
         Ok(())
     }
     #[verifier::external_body]
-    fn insert_after<T>(self, new_sibling: NodeId, arena: &mut Arena<T>) {
+    pub fn insert_after<T>(self, new_sibling: NodeId, arena: &mut Arena<T>) {
         self.checked_insert_after(new_sibling, arena)
             .expect("Preconditions not met: invalid argument");
     }
     #[verifier::external_body]
-    fn checked_insert_after<T>(
+    pub fn checked_insert_after<T>(
         self,
         new_sibling: NodeId,
         arena: &mut Arena<T>,
@@ -239,12 +274,12 @@ impl NodeId {
         Ok(())
     }
     #[verifier::external_body]
-    fn insert_before<T>(self, new_sibling: NodeId, arena: &mut Arena<T>) {
+    pub fn insert_before<T>(self, new_sibling: NodeId, arena: &mut Arena<T>) {
         self.checked_insert_before(new_sibling, arena)
             .expect("Preconditions not met: invalid argument");
     }
     #[verifier::external_body]
-    fn checked_insert_before<T>(
+    pub fn checked_insert_before<T>(
         self,
         new_sibling: NodeId,
         arena: &mut Arena<T>,
@@ -278,7 +313,7 @@ impl NodeId {
         Ok(())
     }
     #[verifier::external_body]
-    fn remove<T>(self, arena: &mut Arena<T>) {
+    pub fn remove<T>(self, arena: &mut Arena<T>) {
         debug_assert_triangle_nodes!(
             arena,
             arena[self].parent,
@@ -315,7 +350,7 @@ impl NodeId {
         debug_assert!(arena[self].is_detached());
     }
     #[verifier::external_body]
-    fn remove_subtree<T>(self, arena: &mut Arena<T>) {
+    pub fn remove_subtree<T>(self, arena: &mut Arena<T>) {
         self.detach(arena);
         let mut cursor = Some(self);
         while let Some(id) = cursor {
@@ -332,23 +367,23 @@ impl NodeId {
     }
 }
 #[derive(PartialEq, Eq, Clone, Debug)]
-enum NodeData<T> {
+pub enum NodeData<T> {
     Data(T),
     NextFree(Option<usize>),
 }
 #[derive(PartialEq, Eq, Clone, Debug)]
-struct Node<T> {
-    parent: Option<NodeId>,
-    previous_sibling: Option<NodeId>,
-    next_sibling: Option<NodeId>,
-    first_child: Option<NodeId>,
-    last_child: Option<NodeId>,
-    stamp: NodeStamp,
-    data: NodeData<T>,
+pub struct Node<T> {
+    pub parent: Option<NodeId>,
+    pub previous_sibling: Option<NodeId>,
+    pub next_sibling: Option<NodeId>,
+    pub first_child: Option<NodeId>,
+    pub last_child: Option<NodeId>,
+    pub stamp: NodeStamp,
+    pub data: NodeData<T>,
 }
 impl<T> Node<T> {
     #[verifier::external_body]
-    fn get(&self) -> &T {
+    pub fn get(&self) -> &T {
         if let NodeData::Data(ref data) = self.data {
             data
         } else {
@@ -356,7 +391,7 @@ impl<T> Node<T> {
         }
     }
     #[verifier::external_body]
-    fn get_mut(&mut self) -> &mut T {
+    pub fn get_mut(&mut self) -> &mut T {
         if let NodeData::Data(ref mut data) = self.data {
             data
         } else {
@@ -364,7 +399,7 @@ impl<T> Node<T> {
         }
     }
     #[verifier::external_body]
-    fn new(data: T) -> Self {
+    pub fn new(data: T) -> Self {
         Self {
             parent: None,
             previous_sibling: None,
@@ -376,7 +411,7 @@ impl<T> Node<T> {
         }
     }
     #[verifier::external_body]
-    fn reuse(&mut self, data: T) {
+    pub fn reuse(&mut self, data: T) {
         debug_assert!(matches!(self.data, NodeData::NextFree(_)));
         debug_assert!(self.stamp.is_removed());
         self.stamp.reuse();
@@ -388,47 +423,47 @@ impl<T> Node<T> {
         self.data = NodeData::Data(data);
     }
     #[verifier::external_body]
-    fn parent(&self) -> Option<NodeId> {
+    pub fn parent(&self) -> Option<NodeId> {
         self.parent
     }
     #[verifier::external_body]
-    fn first_child(&self) -> Option<NodeId> {
+    pub fn first_child(&self) -> Option<NodeId> {
         self.first_child
     }
     #[verifier::external_body]
-    fn last_child(&self) -> Option<NodeId> {
+    pub fn last_child(&self) -> Option<NodeId> {
         self.last_child
     }
     #[verifier::external_body]
-    fn previous_sibling(&self) -> Option<NodeId> {
+    pub fn previous_sibling(&self) -> Option<NodeId> {
         self.previous_sibling
     }
     #[verifier::external_body]
-    fn next_sibling(&self) -> Option<NodeId> {
+    pub fn next_sibling(&self) -> Option<NodeId> {
         self.next_sibling
     }
     #[verifier::external_body]
-    fn is_removed(&self) -> bool {
+    pub fn is_removed(&self) -> bool {
         self.stamp.is_removed()
     }
     #[verifier::external_body]
-    fn is_detached(&self) -> bool {
+    pub fn is_detached(&self) -> bool {
         self.parent.is_none() && self.previous_sibling.is_none() && self.next_sibling.is_none()
     }
 }
 #[derive(PartialEq, Eq, Clone, Debug)]
-struct Arena<T> {
-    nodes: Vec<Node<T>>,
-    first_free_slot: Option<usize>,
-    last_free_slot: Option<usize>,
+pub struct Arena<T> {
+    pub nodes: Vec<Node<T>>,
+    pub first_free_slot: Option<usize>,
+    pub last_free_slot: Option<usize>,
 }
 impl<T> Arena<T> {
     #[verifier::external_body]
-    fn new() -> Arena<T> {
+    pub fn new() -> Arena<T> {
         Self::default()
     }
     #[verifier::external_body]
-    fn with_capacity(n: usize) -> Self {
+    pub fn with_capacity(n: usize) -> Self {
         Self {
             nodes: Vec::with_capacity(n),
             first_free_slot: None,
@@ -436,15 +471,15 @@ impl<T> Arena<T> {
         }
     }
     #[verifier::external_body]
-    fn capacity(&self) -> usize {
+    pub fn capacity(&self) -> usize {
         self.nodes.capacity()
     }
     #[verifier::external_body]
-    fn reserve(&mut self, additional: usize) {
+    pub fn reserve(&mut self, additional: usize) {
         self.nodes.reserve(additional);
     }
     #[verifier::external_body]
-    fn get_node_id(&self, node: &Node<T>) -> Option<NodeId> {
+    pub fn get_node_id(&self, node: &Node<T>) -> Option<NodeId> {
         let nodes_range = self.nodes.as_ptr_range();
         let p = node as *const Node<T>;
         if !nodes_range.contains(&p) {
@@ -458,7 +493,7 @@ impl<T> Arena<T> {
         ))
     }
     #[verifier::external_body]
-    fn get_node_id_at(&self, index: NonZeroUsize) -> Option<NodeId> {
+    pub fn get_node_id_at(&self, index: NonZeroUsize) -> Option<NodeId> {
         let index0 = index.get() - 1;
         match match self.nodes.get(index0) {
             Some(__vx_v1) => {
@@ -476,7 +511,7 @@ impl<T> Arena<T> {
         }
     }
     #[verifier::external_body]
-    fn new_node(&mut self, data: T) -> NodeId {
+    pub fn new_node(&mut self, data: T) -> NodeId {
         let (index, stamp) = if let Some(index) = self.pop_front_free_node() {
             let node = &mut self.nodes[index];
             node.reuse(data);
@@ -493,41 +528,41 @@ impl<T> Arena<T> {
         NodeId::from_non_zero_usize(next_index1, stamp)
     }
     #[verifier::external_body]
-    fn count(&self) -> usize {
+    pub fn count(&self) -> usize {
         self.nodes.len()
     }
     #[verifier::external_body]
-    fn is_empty(&self) -> bool {
+    pub fn is_empty(&self) -> bool {
         self.count() == 0
     }
     #[verifier::external_body]
-    fn get(&self, id: NodeId) -> Option<&Node<T>> {
+    pub fn get(&self, id: NodeId) -> Option<&Node<T>> {
         self.nodes.get(id.index0())
     }
     #[verifier::external_body]
-    fn get_mut(&mut self, id: NodeId) -> Option<&mut Node<T>> {
+    pub fn get_mut(&mut self, id: NodeId) -> Option<&mut Node<T>> {
         self.nodes.get_mut(id.index0())
     }
     #[verifier::external_body]
-    fn iter(&self) -> slice::Iter<Node<T>> {
+    pub fn iter(&self) -> slice::Iter<Node<T>> {
         self.nodes.iter()
     }
     #[verifier::external_body]
-    fn iter_mut(&mut self) -> slice::IterMut<Node<T>> {
+    pub fn iter_mut(&mut self) -> slice::IterMut<Node<T>> {
         self.nodes.iter_mut()
     }
     #[verifier::external_body]
-    fn clear(&mut self) {
+    pub fn clear(&mut self) {
         self.nodes.clear();
         self.first_free_slot = None;
         self.last_free_slot = None;
     }
     #[verifier::external_body]
-    fn as_slice(&self) -> &[Node<T>] {
+    pub fn as_slice(&self) -> &[Node<T>] {
         self.nodes.as_slice()
     }
     #[verifier::external_body]
-    fn free_node(&mut self, id: NodeId) {
+    pub fn free_node(&mut self, id: NodeId) {
         let node = &mut self[id];
         node.data = NodeData::NextFree(None);
         node.stamp.as_removed();
@@ -546,7 +581,7 @@ impl<T> Arena<T> {
         }
     }
     #[verifier::external_body]
-    fn pop_front_free_node(&mut self) -> Option<usize> {
+    pub fn pop_front_free_node(&mut self) -> Option<usize> {
         let first = self.first_free_slot.take();
         if let Some(index) = first {
             if let NodeData::NextFree(next_free) = self.nodes[index].data {
@@ -585,7 +620,7 @@ impl<T> IndexMut<NodeId> for Arena<T> {
     }
 }
 #[verifier::external_body]
-fn assert_triangle_nodes<T>(
+pub fn assert_triangle_nodes<T>(
     arena: &Arena<T>,
     parent: Option<NodeId>,
     previous: Option<NodeId>,
@@ -619,7 +654,7 @@ fn assert_triangle_nodes<T>(
     }
 }
 #[verifier::external_body]
-fn connect_neighbors<T>(
+pub fn connect_neighbors<T>(
     arena: &mut Arena<T>,
     parent: Option<NodeId>,
     previous: Option<NodeId>,
@@ -675,7 +710,7 @@ fn connect_neighbors<T>(
     debug_assert_triangle_nodes!(arena, parent, previous, next);
 }
 #[verifier::external_body]
-fn insert_with_neighbors<T>(
+pub fn insert_with_neighbors<T>(
     arena: &mut Arena<T>,
     new: NodeId,
     parent: Option<NodeId>,
@@ -698,7 +733,7 @@ fn insert_with_neighbors<T>(
     Ok(())
 }
 #[verifier::external_body]
-fn insert_last_unchecked<T>(arena: &mut Arena<T>, new: NodeId, parent: NodeId) {
+pub fn insert_last_unchecked<T>(arena: &mut Arena<T>, new: NodeId, parent: NodeId) {
     let previous_sibling = arena[parent].last_child;
     DetachedSiblingsRange::new(new, new)
         .transplant(arena, Some(parent), previous_sibling, None)
@@ -709,17 +744,17 @@ fn insert_last_unchecked<T>(arena: &mut Arena<T>, new: NodeId, parent: NodeId) {
     debug_assert_triangle_nodes!(arena, Some(parent), previous_sibling, Some(new));
 }
 #[derive(Debug, Clone, Copy)]
-struct SiblingsRange {
-    first: NodeId,
-    last: NodeId,
+pub struct SiblingsRange {
+    pub first: NodeId,
+    pub last: NodeId,
 }
 impl SiblingsRange {
     #[verifier::external_body]
-    fn new(first: NodeId, last: NodeId) -> Self {
+    pub fn new(first: NodeId, last: NodeId) -> Self {
         Self { first, last }
     }
     #[verifier::external_body]
-    fn detach_from_siblings<T>(self, arena: &mut Arena<T>) -> DetachedSiblingsRange {
+    pub fn detach_from_siblings<T>(self, arena: &mut Arena<T>) -> DetachedSiblingsRange {
         let parent = arena[self.first].parent;
         let prev_of_range = arena[self.first].previous_sibling.take();
         let next_of_range = arena[self.last].next_sibling.take();
@@ -747,17 +782,17 @@ impl SiblingsRange {
     }
 }
 #[derive(Debug, Clone, Copy)]
-struct DetachedSiblingsRange {
-    first: NodeId,
-    last: NodeId,
+pub struct DetachedSiblingsRange {
+    pub first: NodeId,
+    pub last: NodeId,
 }
 impl DetachedSiblingsRange {
     #[verifier::external_body]
-    fn new(first: NodeId, last: NodeId) -> Self {
+    pub fn new(first: NodeId, last: NodeId) -> Self {
         Self { first, last }
     }
     #[verifier::external_body]
-    fn rewrite_parents<T>(
+    pub fn rewrite_parents<T>(
         &self,
         arena: &mut Arena<T>,
         new_parent: Option<NodeId>,
@@ -774,7 +809,7 @@ impl DetachedSiblingsRange {
         Ok(())
     }
     #[verifier::external_body]
-    fn transplant<T>(
+    pub fn transplant<T>(
         self,
         arena: &mut Arena<T>,
         parent: Option<NodeId>,
@@ -821,26 +856,26 @@ impl DetachedSiblingsRange {
     }
 }
 #[derive(Clone)]
-struct Iter<'a, T> {
-    arena: &'a Arena<T>,
-    node: Option<NodeId>,
+pub struct Iter<'a, T> {
+    pub arena: &'a Arena<T>,
+    pub node: Option<NodeId>,
 }
 impl<'a, T> Iter<'a, T> {
     #[verifier::external_body]
-    fn new(arena: &'a Arena<T>, node: impl Into<Option<NodeId>>) -> Self {
+    pub fn new(arena: &'a Arena<T>, node: impl Into<Option<NodeId>>) -> Self {
         let node = node.into();
         Self { arena, node }
     }
 }
 #[derive(Clone)]
-struct DoubleEndedIter<'a, T> {
-    arena: &'a Arena<T>,
-    head: Option<NodeId>,
-    tail: Option<NodeId>,
+pub struct DoubleEndedIter<'a, T> {
+    pub arena: &'a Arena<T>,
+    pub head: Option<NodeId>,
+    pub tail: Option<NodeId>,
 }
 impl<'a, T> DoubleEndedIter<'a, T> {
     #[verifier::external_body]
-    fn new(
+    pub fn new(
         arena: &'a Arena<T>,
         head: impl Into<Option<NodeId>>,
         tail: impl Into<Option<NodeId>>,
@@ -851,16 +886,16 @@ impl<'a, T> DoubleEndedIter<'a, T> {
     }
 }
 #[derive(Clone)]
-struct Ancestors<'a, T>(Iter<'a, T>);
+pub struct Ancestors<'a, T>(pub Iter<'a, T>);
 impl<'a, T> Ancestors<'a, T> {
     #[verifier::external_body]
-    fn new(arena: &'a Arena<T>, node: NodeId) -> Self {
+    pub fn new(arena: &'a Arena<T>, node: NodeId) -> Self {
         Self({ Iter::new(arena, node) })
     }
 }
 impl<'a, T> Ancestors<'a, T> {
     #[verifier::external_body]
-    fn next(&mut self) -> Option<NodeId> {
+    pub fn next(&mut self) -> Option<NodeId> {
         let node = self.0.node.take()?;
         self.0.node = {
             let node = &self.0.arena[node];
@@ -870,16 +905,16 @@ impl<'a, T> Ancestors<'a, T> {
     }
 }
 #[derive(Clone)]
-struct Predecessors<'a, T>(Iter<'a, T>);
+pub struct Predecessors<'a, T>(pub Iter<'a, T>);
 impl<'a, T> Predecessors<'a, T> {
     #[verifier::external_body]
-    fn new(arena: &'a Arena<T>, node: NodeId) -> Self {
+    pub fn new(arena: &'a Arena<T>, node: NodeId) -> Self {
         Self({ Iter::new(arena, node) })
     }
 }
 impl<'a, T> Predecessors<'a, T> {
     #[verifier::external_body]
-    fn next(&mut self) -> Option<NodeId> {
+    pub fn next(&mut self) -> Option<NodeId> {
         let node = self.0.node.take()?;
         self.0.node = {
             let node = &self.0.arena[node];
@@ -889,10 +924,10 @@ impl<'a, T> Predecessors<'a, T> {
     }
 }
 #[derive(Clone)]
-struct PrecedingSiblings<'a, T>(DoubleEndedIter<'a, T>);
+pub struct PrecedingSiblings<'a, T>(pub DoubleEndedIter<'a, T>);
 impl<'a, T> PrecedingSiblings<'a, T> {
     #[verifier::external_body]
-    fn new(arena: &'a Arena<T>, node: NodeId) -> Self {
+    pub fn new(arena: &'a Arena<T>, node: NodeId) -> Self {
         Self({
             let first = match match match arena.get(node).unwrap().parent {
                 Some(parent_id) => arena.get(parent_id),
@@ -916,7 +951,7 @@ impl<'a, T> PrecedingSiblings<'a, T> {
 }
 impl<'a, T> PrecedingSiblings<'a, T> {
     #[verifier::external_body]
-    fn next(&mut self) -> Option<NodeId> {
+    pub fn next(&mut self) -> Option<NodeId> {
         match (self.0.head, self.0.tail) {
             (Some(head), Some(tail)) if head == tail => {
                 let result = head;
@@ -937,7 +972,7 @@ impl<'a, T> PrecedingSiblings<'a, T> {
 }
 impl<'a, T> PrecedingSiblings<'a, T> {
     #[verifier::external_body]
-    fn next_back(&mut self) -> Option<NodeId> {
+    pub fn next_back(&mut self) -> Option<NodeId> {
         match (self.0.head, self.0.tail) {
             (Some(head), Some(tail)) if head == tail => {
                 let result = head;
@@ -957,10 +992,10 @@ impl<'a, T> PrecedingSiblings<'a, T> {
     }
 }
 #[derive(Clone)]
-struct FollowingSiblings<'a, T>(DoubleEndedIter<'a, T>);
+pub struct FollowingSiblings<'a, T>(pub DoubleEndedIter<'a, T>);
 impl<'a, T> FollowingSiblings<'a, T> {
     #[verifier::external_body]
-    fn new(arena: &'a Arena<T>, node: NodeId) -> Self {
+    pub fn new(arena: &'a Arena<T>, node: NodeId) -> Self {
         Self({
             let last = match match match arena.get(node).unwrap().parent {
                 Some(parent_id) => arena.get(parent_id),
@@ -984,7 +1019,7 @@ impl<'a, T> FollowingSiblings<'a, T> {
 }
 impl<'a, T> FollowingSiblings<'a, T> {
     #[verifier::external_body]
-    fn next(&mut self) -> Option<NodeId> {
+    pub fn next(&mut self) -> Option<NodeId> {
         match (self.0.head, self.0.tail) {
             (Some(head), Some(tail)) if head == tail => {
                 let result = head;
@@ -1005,7 +1040,7 @@ impl<'a, T> FollowingSiblings<'a, T> {
 }
 impl<'a, T> FollowingSiblings<'a, T> {
     #[verifier::external_body]
-    fn next_back(&mut self) -> Option<NodeId> {
+    pub fn next_back(&mut self) -> Option<NodeId> {
         match (self.0.head, self.0.tail) {
             (Some(head), Some(tail)) if head == tail => {
                 let result = head;
@@ -1025,16 +1060,16 @@ impl<'a, T> FollowingSiblings<'a, T> {
     }
 }
 #[derive(Clone)]
-struct Children<'a, T>(DoubleEndedIter<'a, T>);
+pub struct Children<'a, T>(pub DoubleEndedIter<'a, T>);
 impl<'a, T> Children<'a, T> {
     #[verifier::external_body]
-    fn new(arena: &'a Arena<T>, node: NodeId) -> Self {
+    pub fn new(arena: &'a Arena<T>, node: NodeId) -> Self {
         Self({ DoubleEndedIter::new(arena, arena[node].first_child, arena[node].last_child) })
     }
 }
 impl<'a, T> Children<'a, T> {
     #[verifier::external_body]
-    fn next(&mut self) -> Option<NodeId> {
+    pub fn next(&mut self) -> Option<NodeId> {
         match (self.0.head, self.0.tail) {
             (Some(head), Some(tail)) if head == tail => {
                 let result = head;
@@ -1055,7 +1090,7 @@ impl<'a, T> Children<'a, T> {
 }
 impl<'a, T> Children<'a, T> {
     #[verifier::external_body]
-    fn next_back(&mut self) -> Option<NodeId> {
+    pub fn next_back(&mut self) -> Option<NodeId> {
         match (self.0.head, self.0.tail) {
             (Some(head), Some(tail)) if head == tail => {
                 let result = head;
@@ -1075,16 +1110,16 @@ impl<'a, T> Children<'a, T> {
     }
 }
 #[derive(Clone)]
-struct ReverseChildren<'a, T>(Iter<'a, T>);
+pub struct ReverseChildren<'a, T>(pub Iter<'a, T>);
 impl<'a, T> ReverseChildren<'a, T> {
     #[verifier::external_body]
-    fn new(arena: &'a Arena<T>, node: NodeId) -> Self {
+    pub fn new(arena: &'a Arena<T>, node: NodeId) -> Self {
         Self({ Iter::new(arena, arena[node].last_child) })
     }
 }
 impl<'a, T> ReverseChildren<'a, T> {
     #[verifier::external_body]
-    fn next(&mut self) -> Option<NodeId> {
+    pub fn next(&mut self) -> Option<NodeId> {
         let node = self.0.node.take()?;
         self.0.node = {
             let node = &self.0.arena[node];
@@ -1094,16 +1129,16 @@ impl<'a, T> ReverseChildren<'a, T> {
     }
 }
 #[derive(Clone)]
-struct Descendants<'a, T>(Traverse<'a, T>);
+pub struct Descendants<'a, T>(pub Traverse<'a, T>);
 impl<'a, T> Descendants<'a, T> {
     #[verifier::external_body]
-    fn new(arena: &'a Arena<T>, current: NodeId) -> Self {
+    pub fn new(arena: &'a Arena<T>, current: NodeId) -> Self {
         Self(Traverse::new(arena, current))
     }
 }
 impl<T> Descendants<'_, T> {
     #[verifier::external_body]
-    fn next(&mut self) -> Option<NodeId> {
+    pub fn next(&mut self) -> Option<NodeId> {
         {
             let mut __vx_found1 = None;
             while let Some(edge) = self.0.next() {
@@ -1121,13 +1156,13 @@ impl<T> Descendants<'_, T> {
     }
 }
 #[derive(Debug, Clone, Copy, PartialEq, Eq)]
-enum NodeEdge {
+pub enum NodeEdge {
     Start(NodeId),
     End(NodeId),
 }
 impl NodeEdge {
     #[verifier::external_body]
-    fn next_traverse<T>(self, arena: &Arena<T>) -> Option<Self> {
+    pub fn next_traverse<T>(self, arena: &Arena<T>) -> Option<Self> {
         match self {
             NodeEdge::Start(node) => match arena[node].first_child {
                 Some(first_child) => Some(NodeEdge::Start(first_child)),
@@ -1146,7 +1181,7 @@ impl NodeEdge {
         }
     }
     #[verifier::external_body]
-    fn prev_traverse<T>(self, arena: &Arena<T>) -> Option<Self> {
+    pub fn prev_traverse<T>(self, arena: &Arena<T>) -> Option<Self> {
         match self {
             NodeEdge::End(node) => match arena[node].last_child {
                 Some(last_child) => Some(NodeEdge::End(last_child)),
@@ -1166,14 +1201,14 @@ impl NodeEdge {
     }
 }
 #[derive(Clone)]
-struct Traverse<'a, T> {
-    arena: &'a Arena<T>,
-    root: NodeId,
-    next: Option<NodeEdge>,
+pub struct Traverse<'a, T> {
+    pub arena: &'a Arena<T>,
+    pub root: NodeId,
+    pub next: Option<NodeEdge>,
 }
 impl<'a, T> Traverse<'a, T> {
     #[verifier::external_body]
-    fn new(arena: &'a Arena<T>, current: NodeId) -> Self {
+    pub fn new(arena: &'a Arena<T>, current: NodeId) -> Self {
         Self {
             arena,
             root: current,
@@ -1181,34 +1216,34 @@ impl<'a, T> Traverse<'a, T> {
         }
     }
     #[verifier::external_body]
-    fn next_of_next(&self, next: NodeEdge) -> Option<NodeEdge> {
+    pub fn next_of_next(&self, next: NodeEdge) -> Option<NodeEdge> {
         if next == NodeEdge::End(self.root) {
             return None;
         }
         next.next_traverse(self.arena)
     }
     #[verifier::external_body]
-    fn arena(&self) -> &Arena<T> {
+    pub fn arena(&self) -> &Arena<T> {
         self.arena
     }
 }
 impl<T> Traverse<'_, T> {
     #[verifier::external_body]
-    fn next(&mut self) -> Option<NodeEdge> {
+    pub fn next(&mut self) -> Option<NodeEdge> {
         let next = self.next.take()?;
         self.next = self.next_of_next(next);
         Some(next)
     }
 }
 #[derive(Clone)]
-struct ReverseTraverse<'a, T> {
-    arena: &'a Arena<T>,
-    root: NodeId,
-    next: Option<NodeEdge>,
+pub struct ReverseTraverse<'a, T> {
+    pub arena: &'a Arena<T>,
+    pub root: NodeId,
+    pub next: Option<NodeEdge>,
 }
 impl<'a, T> ReverseTraverse<'a, T> {
     #[verifier::external_body]
-    fn new(arena: &'a Arena<T>, current: NodeId) -> Self {
+    pub fn new(arena: &'a Arena<T>, current: NodeId) -> Self {
         Self {
             arena,
             root: current,
@@ -1216,7 +1251,7 @@ impl<'a, T> ReverseTraverse<'a, T> {
         }
     }
     #[verifier::external_body]
-    fn next_of_next(&self, next: NodeEdge) -> Option<NodeEdge> {
+    pub fn next_of_next(&self, next: NodeEdge) -> Option<NodeEdge> {
         if next == NodeEdge::Start(self.root) {
             return None;
         }
@@ -1225,7 +1260,7 @@ impl<'a, T> ReverseTraverse<'a, T> {
 }
 impl<T> ReverseTraverse<'_, T> {
     #[verifier::external_body]
-    fn next(&mut self) -> Option<NodeEdge> {
+    pub fn next(&mut self) -> Option<NodeEdge> {
         let next = self.next.take()?;
         self.next = self.next_of_next(next);
         Some(next)
